@@ -1,0 +1,35 @@
+//go:build verif
+
+package server
+
+import (
+	"context"
+	"net"
+	"net/http"
+	"net/http/httputil"
+)
+
+// Verification hooks (build tag "verif"): a substitutable dialer for target
+// connections, and named program points a test harness can observe or park at.
+
+var (
+	verifDial    func(ctx context.Context, network, addr string) (net.Conn, error)
+	verifPointFn func(name string, args ...any)
+)
+
+func verifProxy(h http.Handler) {
+	if verifDial == nil {
+		return
+	}
+	if rp, ok := h.(*httputil.ReverseProxy); ok {
+		if tr, ok := rp.Transport.(*http.Transport); ok {
+			tr.DialContext = verifDial
+		}
+	}
+}
+
+func verifPoint(name string, args ...any) {
+	if fn := verifPointFn; fn != nil {
+		fn(name, args...)
+	}
+}
